@@ -128,7 +128,16 @@ func VerifH_C06_postprocess() {
 		}
 		text += "</body></html>"
 	}
-	resp := &http.Response{StatusCode: status, Header: http.Header{"Location": []string{"http://site.example/next"}, "Content-Type": []string{ctype}}}
+	hdr := http.Header{"Location": []string{"http://site.example/next"}, "Content-Type": []string{ctype}}
+	verifmodel.HeaderLinks = nil
+	if verifrt.Choice("link-header", 2) == 1 {
+		// a Link response header is one more source of outlinks
+		hdr["Link"] = []string{"<http://other.example/h0>; rel=\"next\""}
+		verifmodel.HeaderLinks = []string{"http://other.example/h0"}
+		verifmodel.DomainMatch["http://other.example/h0"] = false
+		verifrt.Cover("link-header")
+	}
+	resp := &http.Response{StatusCode: status, Header: hdr}
 	item.GetURL().SetResponse(resp)
 	body := &c06Body{Reader: bytes.NewReader([]byte(text))}
 	if verifrt.Choice("has-body", 2) == 1 {
